@@ -352,8 +352,30 @@ pub fn run_one(sc: &Scenario, schedule: &[String]) -> bool {
             _ => {}
         }
     }
+    if aborted {
+        // follow-real mode: the schedule cannot be followed any further; let the real threads run
+        // on their own for a moment so that the history shows what the code does from here
+        println!("ABORTED");
+        s.free_run();
+        let t0 = Instant::now();
+        while t0.elapsed() < Duration::from_millis(1500) {
+            if handles.iter().all(|h| h.is_finished()) {
+                break;
+            }
+            std::thread::sleep(Duration::from_millis(5));
+        }
+    }
     // final observations (before the cleanup disturbs anything)
-    let unfinished = s.unfinished();
+    let unfinished = if aborted {
+        handles
+            .iter()
+            .enumerate()
+            .filter(|(_, h)| !h.is_finished())
+            .map(|(i, _)| (sc.threads[i].0 as i64, "free-run".to_string()))
+            .collect()
+    } else {
+        s.unfinished()
+    };
     println!("END state={}", state_text(&store.get_state()));
     println!("END metrics {}", metrics_text(&store));
     println!(
@@ -364,9 +386,6 @@ pub fn run_one(sc: &Scenario, schedule: &[String]) -> bool {
             unfinished.iter().map(|(t, l)| format!("{}@{}", t, l)).collect::<Vec<_>>().join(",")
         }
     );
-    if aborted {
-        println!("ABORTED");
-    }
     // the raw log in its global order (for the monitors; not compared with the model)
     for e in ctx.log.lock().unwrap().iter() {
         println!("L {} {} {}", e.logical, e.thread, e.text);
